@@ -26,7 +26,7 @@ SA = "routee_compass::app::search::search_app::SearchApp"
 LIB_CRATES = ("routee_compass", "routee_compass_core", "routee_compass_powertrain")
 
 CELLS = re.compile(
-    r"^(std::sync::(Mutex|RwLock|OnceLock|Once|Condvar|Barrier|LazyLock|ReentrantLock|mpsc::\w+|mpmc::\w+|atomic::\w+|poison::\w+::\w+|nonpoison::\w+::\w+)"
+    r"^(std::sync::(?:\w+::)?(Mutex|RwLock|OnceLock|Once|Condvar|Barrier|LazyLock|ReentrantLock)|std::sync::(mpsc::\w+|mpmc::\w+|atomic::\w+|poison::\w+::\w+|nonpoison::\w+::\w+)"
     r"|std::cell::\w+|std::cell::\w+::\w+|once_cell::\w+::\w+|lazy_static::\w+|parking_lot::\w+|crossbeam\w*::.*|dashmap::\w+|arc_swap::\w+|thread_local::\w+)$"
 )
 
@@ -136,6 +136,9 @@ def R1_inventory(ctx):
             continue
         n_static += 1
         crate = v.get("file", "").split("/")[0].replace("-", "_")
+        if k.split("::")[0] in LIB_CRATES:
+            # (a `thread_local!` expands to statics whose span lies in the standard library's macro: attribute them by path)
+            crate = k.split("::")[0]
         if crate in LIB_CRATES:
             ctx.bad("static:" + k, "a static in a library crate is shared by all workers (%s, mut=%s)" % (v["ty"][:80], v.get("mut")), "%s:%s" % (v.get("file"), v.get("line")))
         else:
